@@ -12,25 +12,31 @@ is acyclic; precedents() contains every reference the formula read by attribute 
 """
 from .. import exec_props as X
 from ..execworld import ExecImpl, node_s, parse_val
+from ..expr import parse_sexp
 from ..impl import mx, quiet
 from ..shadow import CallRecorder
 
 CFG = {
-    "weights": {"eval": 8, "reeval": 2, "set": 1.2, "clearat": 1, "clear": 0.5, "clearall": 0.3},
+    "weights": {"eval": 8, "reeval": 2, "set": 1.2, "clearat": 1, "clear": 0.5, "clearall": 0.3,
+                "setcached": 0.9, "setformula": 0.5, "setref": 0.5, "delref": 0.15},
     "compare": ["graph", "refgraph", "values"],
     "maxdepths": [None, None, 6, 10],
     "raise_p": 0.07, "none_p": 0.04, "catch_all_p": 0.15,
     "rule": "random programs (cached and uncached cells, recursion, references by attribute path, failing and "
-            "handled callees) with histories of evaluations, re-evaluations (cache hits), value edits and failed "
-            "evaluations; non-trivial = the graph held an edge through an uncached cells or an edge created on a "
-            "cache hit",
+            "handled callees) with histories of evaluations, re-evaluations (cache hits), value edits, failed "
+            "evaluations, cache-flag flips (both directions), formula edits and reference edits (change, create, "
+            "delete); scenario family: a cached cells calculated THROUGH an uncached one x every edit of the cells in "
+            "the middle x queries / value edits afterwards; non-trivial = the graph held an edge through an uncached "
+            "cells or an edge created on a cache hit",
 }
 
 
 def oracle(case, recs, out, stats):
     rec = CallRecorder()
     impl = ExecImpl(case["cells"], case["refs"], case["n_rn"], case["maxdepth"], recorder=rec)
+    # the definitions as the history has made them (flag flips and formula edits are ops of the history)
     cached = {c["id"]: c["cached"] for c in case["cells"]}
+    bodies = {c["id"]: c["body"] for c in case["cells"]}
     nontrivial = False
     try:
         g = impl.m._impl.tracegraph
@@ -40,6 +46,17 @@ def oracle(case, recs, out, stats):
             r = impl.apply(op)
             if op[0] == "eval":
                 rec.top_done(r.startswith("ok"))
+            elif op[0] == "setcached" and r == "ok":
+                cached[int(op[1])] = op[2] == "1"
+                stats["oracle_flag_flips"] += 1
+            elif op[0] == "setformula" and r == "ok":
+                bodies[int(op[1])] = parse_sexp(" ".join(op[2:]))
+            # the only nodes without a key are the object nodes of cells that are uncached NOW
+            for n in g.nodes:
+                if len(n) == 1:
+                    cid = impl.cid_of(n[0])
+                    if cached.get(cid, True):
+                        out.fail("the graph holds the object node of c%s, which is a cached cells" % cid, hist)
             # nodes = held
             held = set()
             for cid, c in impl.cells.items():
@@ -84,13 +101,13 @@ def oracle(case, recs, out, stats):
                                 if (c._impl, key) not in back:
                                     out.fail("succs() of a pred of %s does not list it" % node_s(cid, key), hist)
                         # attribute-path reads are in precedents()
-                        want_refs = {e[1] for e in _reads(case["cells"][cid]["body"]) if e[0] == "ra"}
+                        want_refs = {e[1] for e in _reads(bodies[cid]) if e[0] == "ra"}
                         if want_refs:
                             names = set()
                             for p in c.precedents(*key):
                                 nm = getattr(p.obj, "name", None) if hasattr(p, "obj") else None
                                 names.add(nm)
-                            ran = {"r%d" % r for r in _reads_executed(impl, cid, key, want_refs)}
+                            ran = {"r%d" % r for r in _reads_executed(bodies[cid], want_refs)}
                             if not ran <= names:
                                 out.fail("precedents() of %s lacks references read by attribute path: %s" % (
                                     node_s(cid, key), sorted(ran - names)), hist)
@@ -106,10 +123,9 @@ def _reads(e):
             yield x
 
 
-def _reads_executed(impl, cid, key, candidates):
+def _reads_executed(body, candidates):
     """references surely read by the element: those read unconditionally at the top of the
     body (a conservative subset, so the check never demands too much)"""
-    body = impl.cells_def[cid]["body"]
     res = set()
 
     def walk(e):
@@ -153,8 +169,59 @@ def _acyclic(g):
     return True
 
 
+def scenario_cases():
+    """an input does not outlive the redefinition of its cells (exec_props.input_then_redefined_cases): the element
+    recomputed after the redefinition is an ordinary computed element - its predecessors are the calls it made, and
+    it is not an input (an input has no predecessors)"""
+    return X.input_then_redefined_cases({"reeval": lambda R: [], "clear": lambda R: [["clear", "0"]]})
+
+
+def scenarios():
+    """A cached cells calculated through a chain base -> mid -> top (every cached/uncached assignment of base and
+    mid, top reading a reference by attribute path) x every edit of the cells in the middle or at the bottom
+    (flag on, flag off, off and on again, the same formula again, another formula, a reference edit) x what is
+    asked afterwards (the same query, a value assigned to / cleared at the edited cells, the other elements)."""
+    P0 = ("p", 0)
+    out = []
+    f_mid = ("add", ("call", 0, [P0]), ("lit", 1))
+    f_mid2 = ("sub", ("call", 0, [P0]), ("lit", 3))
+    edits = {
+        "mid-on": [["setcached", "1", "1"]],
+        "mid-off": [["setcached", "1", "0"]],
+        "mid-on-off": [["setcached", "1", "1"], ["setcached", "1", "0"]],
+        "mid-off-on": [["setcached", "1", "0"], ["eval", "2", "1"], ["setcached", "1", "1"]],
+        "mid-same-formula": [["setformula", "1", X.sexp(f_mid)]],
+        "mid-new-formula": [["setformula", "1", X.sexp(f_mid2)]],
+        "base-on": [["setcached", "0", "1"]],
+        "base-off": [["setcached", "0", "0"]],
+        "base-off-on": [["setcached", "0", "0"], ["eval", "3", "1"], ["setcached", "0", "1"]],
+        "top-off-on": [["setcached", "2", "0"], ["eval", "2", "1"], ["setcached", "2", "1"]],
+        "ref": [["setref", "2", "5"]],
+        "delref": [["delref", "2"], ["eval", "2", "1"], ["setref", "2", "1"]],
+    }
+    for bc in (True, False):
+        for mc in (False, True):
+            cells = [
+                {"id": 0, "nparams": 1, "cached": bc, "allow_none": False, "body": ("mul", P0, ("lit", 10))},
+                {"id": 1, "nparams": 1, "cached": mc, "allow_none": False, "body": f_mid},
+                {"id": 2, "nparams": 1, "cached": True, "allow_none": False,
+                 "body": ("add", ("mul", ("call", 1, [P0]), ("lit", 2)), ("ra", 2))},
+                {"id": 3, "nparams": 1, "cached": True, "allow_none": False,
+                 "body": ("add", ("call", 1, [P0]), ("call", 0, [("add", P0, ("lit", 1))]))},
+            ]
+            for name, ed in edits.items():
+                ops = [["eval", "2", "1"], ["eval", "3", "1"]] + ed + [
+                    ["eval", "2", "1"], ["set", "1", "1", "=", "100"], ["eval", "2", "1"], ["eval", "3", "1"],
+                    ["clearat", "1", "1"], ["eval", "2", "1"], ["set", "0", "1", "=", "7"], ["eval", "3", "1"],
+                    ["eval", "2", "1"]]
+                out.append({"cells": [dict(c) for c in cells], "refs": {0: 1, 1: 2, 2: 3, 3: 4}, "n_rn": 2,
+                            "maxdepth": None, "ops": ops,
+                            "label": "through/base=%d mid=%d %s" % (bc, mc, name)})
+    return out
+
+
 def run(ctx, out):
-    X.run_family(ctx, out, CFG, oracle, 150, 2500)
+    X.run_family(ctx, out, CFG, oracle, 150, 2500, structured=scenarios() + scenario_cases())
     out.assumptions.append("get_valuerefs (by-name references from bytecode) is exercised through precedents() only "
                            "for attribute-path reads; by-name value references are not compared")
 
